@@ -64,6 +64,27 @@ pub mod verif {
         }
     }
 
+    /// Feeds one sync event to the aggregator and reports the session phase ("sync" / "live") the
+    /// aggregator attributed an operation event to (`None` for every other kind of event).
+    pub fn aggregator_process_phase<E: p2panda_core::Extensions>(
+        aggregator: &mut Aggregator,
+        from_sync: p2panda_sync::FromSync<p2panda_sync::protocols::TopicLogSyncEvent<E>>,
+    ) -> Option<&'static str> {
+        use super::stream::Source;
+        use super::sync_metrics::{SessionPhase, SyncEvent};
+
+        match aggregator.process(from_sync)? {
+            SyncEvent::OperationReceived {
+                source: Source::SyncSession { phase, .. },
+                ..
+            } => Some(match phase {
+                SessionPhase::Sync => "sync",
+                SessionPhase::Live => "live",
+            }),
+            _ => None,
+        }
+    }
+
     thread_local! {
         static PUBLISHED: RefCell<Vec<Vec<u8>>> = const { RefCell::new(Vec::new()) };
     }
